@@ -22,3 +22,4 @@ pub mod poseidon_tree {
 pub mod vlib;
 pub mod stubs;
 pub mod c02_c13;
+pub mod c11_ffi;
